@@ -559,6 +559,7 @@ impl<const N: usize> Subscriptions<N> {
                     min_int_secs: sub.min_int_secs,
                     max_int_secs: sub.max_int_secs,
                     subscribe_req: Octets(rx.as_ref()),
+                    id: Some(sub.ids.id),
                 };
 
                 // Serialize into the front of `buf`, leaving the tail as the store's
@@ -667,6 +668,27 @@ impl<const N: usize> Subscriptions<N> {
                     // report `is_expired` measures `max_int` from the resume instant.
                     if let Some(sub) = rctx.subscription.as_mut() {
                         sub.resumed_at = now;
+
+                        // Give the subscription the id its subscriber knows it by (unless
+                        // a subscription resumed before it holds that id already), and
+                        // keep the ids assigned from now on above it.
+                        if let Some(id) = record.id {
+                            let restored = self.state.lock(|state| {
+                                let mut state = state.borrow_mut();
+
+                                let taken = state.subscriptions.iter().any(|s| s.ids.id == id);
+                                if !taken {
+                                    state.next_subscription_id =
+                                        state.next_subscription_id.max(id.saturating_add(1));
+                                }
+
+                                !taken
+                            });
+
+                            if restored {
+                                sub.ids.id = id;
+                            }
+                        }
                     }
                     rctx.set_keep();
                     info!(
@@ -1020,6 +1042,12 @@ struct PersistedSubscription<'a> {
     /// The raw `SubscribeReq` TLV that created this subscription (its selected
     /// attribute/event paths and fabric-filtered flag live inside it).
     subscribe_req: OctetStr<'a>,
+    /// The id of the subscription. The subscriber knows the subscription by this id
+    /// (every report carries it), so a resumed subscription must keep it: with fresh
+    /// ids drawn in slot order two subscriptions of one subscriber can swap their ids,
+    /// and the subscriber then takes the reports of one for the other. `None` in a
+    /// record written before the id was persisted.
+    id: Option<u32>,
 }
 
 #[derive(Clone, Debug)]
